@@ -31,33 +31,19 @@ fn cv_wait_env<'a, T>(_c: &Condvar, guard: MutexGuard<'a, T>) -> LockResult<Mute
     Ok(guard)
 }
 
-//@ obligation: C11.5a
-//@ kind: K2
-//@ complete: no
-//@ bound: 0..=2 other clones alive when wait() is called (they are dropped one by one while the waiter is blocked)
-//@ functions: WaitGroup::new, WaitGroup::clone, WaitGroup::wait, WaitGroup::drop
-//@ statement: clone adds one to the count, drop removes one and the last drop notifies all; wait() returns at once iff no other clone is alive,
-//@ statement: otherwise it gives up its own unit and blocks exactly until the count reaches zero — never returning while another clone is alive
-#[kani::proof]
-#[kani::stub(crate::scheduler::get_scheduler, sup::get_scheduler_stub)]
-#[kani::stub(<crate::park::Park as std::ops::Drop>::drop, sup::park_drop_noop)]
-#[kani::stub(crate::sync::mutex::Mutex::lock, mx::mutex_lock_contract)]
-#[kani::stub(crate::sync::mutex::Mutex::unlock, mx::mutex_unlock_contract)]
-#[kani::stub(crate::sync::condvar::Condvar::wait, cv_wait_env)]
-#[kani::stub(crate::sync::condvar::Condvar::notify_all, notify_all_count)]
-#[kani::stub(std::sync::PoisonError::new, sup::poison_error_new_stub)]
-#[kani::unwind(5)]
-fn c11_5a_waitgroup_counts() {
+fn waitgroup_counts<const K: usize>() {
     mx::m_reset(false);
+    sup::gq_reset();
     unsafe {
         NOTIFY_ALLS = 0;
         CV_WAITS = 0;
         sup::ON_POISON_ERROR = None;
     }
     let wg = WaitGroup::new();
+    // one reference is leaked so that the (expensive, irrelevant) destructor of the queues never runs
+    std::mem::forget(wg.inner.clone());
     unsafe { WG = &*wg.inner };
-    let k: usize = kani::any();
-    kani::assume(k <= 2);
+    let k: usize = K;
     let c1 = if k >= 1 { Some(wg.clone()) } else { None };
     let c2 = if k >= 2 { Some(wg.clone()) } else { None };
     assert!(*mx::peek_mut(&wg.inner.count) == 1 + k, "[C11.5-clone-counts] every clone adds one to the count");
@@ -73,7 +59,86 @@ fn c11_5a_waitgroup_counts() {
         assert!(*mx::peek_mut(&inner.count) == 0, "[C11.5-own-unit] a blocking wait gives up its own unit");
     }
     assert!(!unsafe { mx::M_HELD }, "[C11.5-mutex-released] the count mutex is released at return");
-    kani::cover!(k == 2, "two other clones");
+    std::mem::forget(inner);
+}
+
+
+//@ obligation: C11.5a0
+//@ kind: K2
+//@ complete: no
+//@ tier: thorough
+//@ bound: 0 other clone(s) alive when wait() is called (dropped one by one while the waiter is blocked)
+//@ timeout: 900
+//@ functions: WaitGroup::new, WaitGroup::clone, WaitGroup::wait, WaitGroup::drop
+//@ statement: clone adds one to the count, drop removes one and the last drop notifies all; wait() returns at once iff no other clone is alive,
+//@ statement: otherwise it gives up its own unit and blocks exactly until the count reaches zero — never returning while another clone is alive
+#[kani::proof]
+#[kani::stub(crate::scheduler::get_scheduler, sup::get_scheduler_stub)]
+#[kani::stub(<crate::park::Park as std::ops::Drop>::drop, sup::park_drop_noop)]
+#[kani::stub(crate::sync::mutex::Mutex::lock, mx::mutex_lock_contract)]
+#[kani::stub(crate::sync::mutex::Mutex::unlock, mx::mutex_unlock_contract)]
+#[kani::stub(crate::sync::condvar::Condvar::wait, cv_wait_env)]
+#[kani::stub(crate::sync::condvar::Condvar::notify_all, notify_all_count)]
+#[kani::stub(std::sync::PoisonError::new, sup::poison_error_new_stub)]
+#[kani::stub(crossbeam::queue::SegQueue::push, sup::seg_push_stub)]
+#[kani::stub(crossbeam::queue::SegQueue::pop, sup::seg_pop_stub)]
+#[kani::stub(may_queue::mpsc::Queue::push, sup::mq_push_stub)]
+#[kani::stub(may_queue::mpsc::Queue::pop, sup::mq_pop_stub)]
+#[kani::unwind(5)]
+fn c11_5a_waitgroup_counts_0() {
+    waitgroup_counts::<0>();
+}
+
+//@ obligation: C11.5a1
+//@ kind: K2
+//@ complete: no
+//@ tier: thorough
+//@ bound: 1 other clone(s) alive when wait() is called (dropped one by one while the waiter is blocked)
+//@ timeout: 900
+//@ functions: WaitGroup::new, WaitGroup::clone, WaitGroup::wait, WaitGroup::drop
+//@ statement: clone adds one to the count, drop removes one and the last drop notifies all; wait() returns at once iff no other clone is alive,
+//@ statement: otherwise it gives up its own unit and blocks exactly until the count reaches zero — never returning while another clone is alive
+#[kani::proof]
+#[kani::stub(crate::scheduler::get_scheduler, sup::get_scheduler_stub)]
+#[kani::stub(<crate::park::Park as std::ops::Drop>::drop, sup::park_drop_noop)]
+#[kani::stub(crate::sync::mutex::Mutex::lock, mx::mutex_lock_contract)]
+#[kani::stub(crate::sync::mutex::Mutex::unlock, mx::mutex_unlock_contract)]
+#[kani::stub(crate::sync::condvar::Condvar::wait, cv_wait_env)]
+#[kani::stub(crate::sync::condvar::Condvar::notify_all, notify_all_count)]
+#[kani::stub(std::sync::PoisonError::new, sup::poison_error_new_stub)]
+#[kani::stub(crossbeam::queue::SegQueue::push, sup::seg_push_stub)]
+#[kani::stub(crossbeam::queue::SegQueue::pop, sup::seg_pop_stub)]
+#[kani::stub(may_queue::mpsc::Queue::push, sup::mq_push_stub)]
+#[kani::stub(may_queue::mpsc::Queue::pop, sup::mq_pop_stub)]
+#[kani::unwind(5)]
+fn c11_5a_waitgroup_counts_1() {
+    waitgroup_counts::<1>();
+}
+
+//@ obligation: C11.5a2
+//@ kind: K2
+//@ complete: no
+//@ tier: thorough
+//@ bound: 2 other clone(s) alive when wait() is called (dropped one by one while the waiter is blocked)
+//@ timeout: 900
+//@ functions: WaitGroup::new, WaitGroup::clone, WaitGroup::wait, WaitGroup::drop
+//@ statement: clone adds one to the count, drop removes one and the last drop notifies all; wait() returns at once iff no other clone is alive,
+//@ statement: otherwise it gives up its own unit and blocks exactly until the count reaches zero — never returning while another clone is alive
+#[kani::proof]
+#[kani::stub(crate::scheduler::get_scheduler, sup::get_scheduler_stub)]
+#[kani::stub(<crate::park::Park as std::ops::Drop>::drop, sup::park_drop_noop)]
+#[kani::stub(crate::sync::mutex::Mutex::lock, mx::mutex_lock_contract)]
+#[kani::stub(crate::sync::mutex::Mutex::unlock, mx::mutex_unlock_contract)]
+#[kani::stub(crate::sync::condvar::Condvar::wait, cv_wait_env)]
+#[kani::stub(crate::sync::condvar::Condvar::notify_all, notify_all_count)]
+#[kani::stub(std::sync::PoisonError::new, sup::poison_error_new_stub)]
+#[kani::stub(crossbeam::queue::SegQueue::push, sup::seg_push_stub)]
+#[kani::stub(crossbeam::queue::SegQueue::pop, sup::seg_pop_stub)]
+#[kani::stub(may_queue::mpsc::Queue::push, sup::mq_push_stub)]
+#[kani::stub(may_queue::mpsc::Queue::pop, sup::mq_pop_stub)]
+#[kani::unwind(5)]
+fn c11_5a_waitgroup_counts_2() {
+    waitgroup_counts::<2>();
 }
 
 //@ obligation: C11.5b
@@ -88,14 +153,20 @@ fn c11_5a_waitgroup_counts() {
 #[kani::stub(crate::sync::mutex::Mutex::unlock, mx::mutex_unlock_contract)]
 #[kani::stub(crate::sync::condvar::Condvar::notify_all, notify_all_count)]
 #[kani::stub(std::sync::PoisonError::new, sup::poison_error_new_stub)]
+#[kani::stub(crossbeam::queue::SegQueue::push, sup::seg_push_stub)]
+#[kani::stub(crossbeam::queue::SegQueue::pop, sup::seg_pop_stub)]
+#[kani::stub(may_queue::mpsc::Queue::push, sup::mq_push_stub)]
+#[kani::stub(may_queue::mpsc::Queue::pop, sup::mq_pop_stub)]
 #[kani::unwind(3)]
 fn c11_5b_waitgroup_drop_notifies_at_zero() {
     mx::m_reset(false);
+    sup::gq_reset();
     unsafe {
         NOTIFY_ALLS = 0;
         sup::ON_POISON_ERROR = None;
     }
     let wg = WaitGroup::new();
+    std::mem::forget(wg.inner.clone());
     let inner = wg.inner.clone();
     let c: usize = kani::any();
     kani::assume(c >= 1);
